@@ -41,7 +41,7 @@ def _data(rng, dt, shape):
     return vals
 
 
-def gen_program(rng, size: int = 10, with_args: bool = True, control_flow: bool = True) -> list:
+def gen_program(rng, size: int = 10, with_args: bool = True, control_flow: bool = True, random_ops: bool = False) -> list:
     steps: list = []
     vs: list = []  # _V per var
 
@@ -111,6 +111,15 @@ def gen_program(rng, size: int = 10, with_args: bool = True, control_flow: bool 
             "intros", "intros", "unsafe", "inline_const", "inline_const",
             "loop_perm", "loop_perm", "bigconst", "bigconst",
         ])
+        if random_ops and rng.random() < 0.15:
+            # a NON-DETERMINISTIC operator on a constant (history correspondence: the model's "skips propagation"
+            # flag covers subgraph-carrying and non-deterministic nodes alike); its result is no constant
+            i = pick(lambda v: is_t(v) and v.dt in ("f32", "f64") and v.const)
+            if i is not None:
+                fn = rng.choice(["random_uniform_like", "random_normal_like", "bernoulli"])
+                emit({"op": "mlop", "name": fn, "mod": "v17", "fn": fn, "args": [i], "in_dt": "const", "kwargs": {}, "np_kwargs": [], "variadic": False, "nout": 1},
+                     _V("tensor", vs[i].dt, vs[i].shape, False))
+                continue
         if choice == "const":
             new_const()
         elif choice == "attr_const":
@@ -1168,6 +1177,19 @@ def _const_array(step):
     return np.array(list(step["data"]), dtype=np.str_).reshape(-1)
 
 
+NON_DETERMINISTIC = {"RandomUniform", "RandomNormal", "RandomUniformLike", "RandomNormalLike", "Multinomial", "Bernoulli", "Dropout"}
+
+
+def schema_non_deterministic(node) -> bool:
+    """Is the node a sampling operator of the default domain? (the harness's own list from the ONNX operator
+    documentation: `OpSchema.non_deterministic` of onnx 1.22 is also set for Range / If / Loop / *Window)"""
+    try:
+        ot = node.op_type
+        return ot.domain in ("", "ai.onnx") and ot.identifier in NON_DETERMINISTIC
+    except Exception:  # noqa: BLE001
+        return False
+
+
 def record_history(steps: list, sel: str, script=None, at: str = "run") -> dict:
     """Run the program and describe it as a model history (`VP.Step` list) together with the values
     the real code attached. Programs with control flow are not described (returns {"skip": ...})."""
@@ -1226,7 +1248,9 @@ def record_history(steps: list, sel: str, script=None, at: str = "run") -> dict:
                     if type(node).__name__ == "_Inline":
                         h.update({"k": "inline", "gnames": [o.name for o in node.graph.output]})
                     else:
-                        h.update({"k": "standard", "hasSubgraph": next(iter(node.subgraphs), None) is not None})
+                        # "hasSubgraph" is the model's flag for "propagate_values_onnx returns early": subgraph-carrying
+                        # nodes and (since d7506da) operators whose ONNX schema is non-deterministic - read from onnx.defs here
+                        h.update({"k": "standard", "hasSubgraph": next(iter(node.subgraphs), None) is not None or schema_non_deterministic(node)})
                     hist.append(h)
                 for j, (key, v) in enumerate(node.outputs.get_vars().items()):
                     ref_of[id(v)] = {"node": idx, "out": j}
